@@ -818,6 +818,12 @@ def rule_peer_selected_offset(S, res, cs):
         names = info.get("names") or []
         if e.kind in ("call", "lcall", "mutarg", "mutarg2") and names and _is_sanitizer(names):
             return False
+        # `hi.iter().map(|h| commit(..h..)).collect()`: what comes out is what the closure returns; the receiver
+        # reaches the result only through the closure (closarg / closret edges)
+        if e.kind == "call" and names and names[-1].rsplit("::", 1)[-1] in ("map", "and_then", "map_or", "map_or_else", "filter_map", "then", "flat_map") and info.get("arg") == 0:
+            t_ = fg.bodies[e.body].blocks[e.block]["t"] if e.block is not None and e.body in fg.bodies else None
+            if t_ is not None and any("{closure:" in (a["p"]["ty"] if a["k"] != "const" else a.get("ty", "")) for a in t_.get("args", [])):
+                return False
         if e.kind in ("lcall", "call") and names:
             for n in names:
                 if "BitXor<mpc::data_types::Delta>" in n and "data_types::Label" in n:
